@@ -20,6 +20,7 @@ import (
 	"path/filepath"
 	"sort"
 	"strconv"
+	"strings"
 	"sync"
 	"testing"
 )
@@ -338,4 +339,90 @@ func LoadReplay(path string, dst any) error {
 		return json.Unmarshal(b, dst)
 	}
 	return json.Unmarshal(wrapper.Case, dst)
+}
+
+// ---------------------------------------------------------------------------
+// Native fuzzing crashers as replay cases
+
+// FuzzCase is how ./check stores a crasher found by `go test -fuzz`.
+type FuzzCase struct {
+	Corpus string `json:"go_fuzz_corpus"`
+	Target string `json:"fuzz_target"`
+}
+
+// FuzzArgs decodes a Go fuzz corpus file ("go test fuzz v1" + one typed
+// literal per line) into values: []byte, string, bool, int64, uint64.
+func FuzzArgs(corpus string) ([]any, error) {
+	lines := strings.Split(strings.TrimSpace(corpus), "\n")
+	if len(lines) == 0 || !strings.HasPrefix(lines[0], "go test fuzz v1") {
+		return nil, fmt.Errorf("not a go fuzz corpus file")
+	}
+	var out []any
+	for _, l := range lines[1:] {
+		l = strings.TrimSpace(l)
+		if l == "" {
+			continue
+		}
+		open := strings.Index(l, "(")
+		if open < 0 || !strings.HasSuffix(l, ")") {
+			return nil, fmt.Errorf("bad corpus line %q", l)
+		}
+		typ, lit := l[:open], l[open+1:len(l)-1]
+		switch typ {
+		case "[]byte", "string":
+			s, err := strconv.Unquote(lit)
+			if err != nil {
+				return nil, fmt.Errorf("bad literal %q: %w", lit, err)
+			}
+			if typ == "string" {
+				out = append(out, s)
+			} else {
+				out = append(out, []byte(s))
+			}
+		case "bool":
+			out = append(out, lit == "true")
+		case "byte", "uint8", "uint", "uint16", "uint32", "uint64":
+			if strings.HasPrefix(lit, "'") {
+				r, _, _, err := strconv.UnquoteChar(lit[1:len(lit)-1], '\'')
+				if err != nil {
+					return nil, err
+				}
+				out = append(out, uint64(r))
+				continue
+			}
+			n, err := strconv.ParseUint(lit, 0, 64)
+			if err != nil {
+				return nil, err
+			}
+			out = append(out, n)
+		case "int", "int8", "int16", "int32", "int64", "rune":
+			if strings.HasPrefix(lit, "'") {
+				r, _, _, err := strconv.UnquoteChar(lit[1:len(lit)-1], '\'')
+				if err != nil {
+					return nil, err
+				}
+				out = append(out, int64(r))
+				continue
+			}
+			n, err := strconv.ParseInt(lit, 0, 64)
+			if err != nil {
+				return nil, err
+			}
+			out = append(out, n)
+		default:
+			return nil, fmt.Errorf("unsupported corpus type %q", typ)
+		}
+	}
+	return out, nil
+}
+
+// LoadFuzzCase returns the fuzz arguments when the replay file holds a native
+// fuzzing crasher (ok=false when it is an ordinary case).
+func LoadFuzzCase(path string) (target string, args []any, ok bool, err error) {
+	var fc FuzzCase
+	if e := LoadReplay(path, &fc); e != nil || fc.Corpus == "" {
+		return "", nil, false, nil
+	}
+	args, err = FuzzArgs(fc.Corpus)
+	return fc.Target, args, true, err
 }
